@@ -1,15 +1,19 @@
 (** * C15 — hydroelastic contact polygons lie on the contact plane inside both tetrahedra.
-    Theorems only; proofs are in Checker/Poly.v and Proofs/Hydro*.v, the model in Model/Hydro.v. *)
-From Coq Require Import ZArith QArith Reals List Bool.
-From D3 Require Import Base.Ops Base.Vec Base.RVec Spec.Convex Checker.Poly.
+    Theorems only; proofs are in Checker/Poly.v and Proofs/Hydro{Plane,Halfplanes,Pair,Force}.v,
+    the model in Model/Hydro.v (transliteration of _tetrahedron_intersection.py, _halfplanes.py,
+    compute_contact_force; order_points' permutation and the barycentric transforms X are inputs). *)
+From Coq Require Import ZArith QArith Reals Lra List Bool PrimFloat.
+From D3 Require Import Base.Ops Base.Vec Base.RVec Spec.Convex Checker.Poly Model.AabbTree Model.Hydro
+     Proofs.HydroPlane Proofs.HydroHalfplanes Proofs.HydroPair Proofs.HydroForce.
 Import ListNotations.
+Local Close Scope Q_scope.
 
-(** ** The result checker the harness evaluates on every reported tetrahedron pair.
-    If [poly_cert] accepts (exact integer arithmetic on the binary64 values the
-    implementation returned), then over the reals: every polygon vertex lies on the reported
-    plane (within t_plane |n|), has barycentric coordinates >= - t_bary in both tetrahedra,
-    the polygon is convex and counter-clockwise about the normal, its fan area is >= 0, the
-    force is parallel to the normal and points along it (pressure >= 0). *)
+(** ** 1. The result checker the harness evaluates on every reported tetrahedron pair.
+    If [poly_cert] accepts (exact integer arithmetic on the binary64 values the implementation
+    returned), then over the reals: every polygon vertex lies on the reported plane (within
+    t_plane |n|), has barycentric coordinates >= - t_bary in both tetrahedra, the polygon is
+    convex and counter-clockwise about the normal, its fan area is >= 0, the force is parallel
+    to the normal and points along it (pressure >= 0). *)
 Theorem C15_poly_cert_sound : forall D T1 T2 n d poly F tl,
   poly_cert D T1 T2 n d poly F tl = true -> poly_spec D T1 T2 n d poly F tl.
 Proof. exact poly_cert_sound. Qed.
@@ -21,12 +25,11 @@ Theorem C15_sep_cert_sound : forall D n c1 c2 A B,
   forall x, conv_hull (map (rv D) A) x -> conv_hull (map (rv D) B) x -> False.
 Proof. exact sep_cert_sound. Qed.
 
-(** Non-vacuity: the checker accepts a real contact (unit right tetrahedron against its
-    mirror image shifted down: the triangle z = 1/4 cut out of both), and rejects the same
-    polygon moved off the plane. *)
 Definition ex_T1 : tet := (V 0 0 0, V 4 0 0, V 0 4 0, V 0 0 4)%Z.
 Definition ex_T2 : tet := (V 0 0 2, V 4 0 2, V 0 4 2, V 0 0 (-2))%Z.
 Definition ex_tl : tols := Tols (1 # 1000000000) (1 # 1000000000) (1 # 1000000000) (1 # 1000000000) (1 # 1000000000).
+(** the checker accepts a real contact and rejects the polygon moved off the plane, turned
+    clockwise, or with the force reversed *)
 Example C15_poly_cert_nonvacuous :
   poly_cert 4 ex_T1 ex_T2 (V 0 0 4)%Z 1%Z [V 0 0 1; V 1 0 1; V 0 1 1]%Z (V 0 0 1)%Z ex_tl = true /\
   poly_cert 4 ex_T1 ex_T2 (V 0 0 4)%Z 1%Z [V 0 0 2; V 1 0 2; V 0 1 2]%Z (V 0 0 1)%Z ex_tl = false /\
@@ -37,7 +40,159 @@ Example C15_sep_cert_nonvacuous :
   sep_cert (V 0 0 1)%Z 4 5 [V 0 0 0; V 4 0 0; V 0 4 0; V 0 0 4]%Z [V 0 0 5; V 4 0 9; V 0 4 9; V 0 0 9]%Z = true.
 Proof. vm_compute. reflexivity. Qed.
 
+(** ** 2. The model, for every arithmetic (in particular binary64). *)
+(** [make_halfplanes] returns exactly the valid halfplanes (faces not parallel to the plane), in
+    order, every returned row written — the property the F14 defect violated. *)
+Theorem C15_halfplanes_compact : forall (F : Type) (O : Ops F) (X : list (V4 F)) (pp x y : V3 F),
+  (length X <= 8)%nat -> make_halfplanes X pp x y = Ok (map Some (valid_rows x y pp X)).
+Proof. exact @halfplanes_compact. Qed.
+
+(** every point returned by [intersect_halfplanes] is the intersection of two rows i < j that
+    no third row puts outside; fewer than 3n points are returned *)
+Theorem C15_intersect_halfplanes_sound : forall (F : Type) (O : Ops F) (hs : list (HP F)) (pts : list (V2 F)),
+  intersect_halfplanes hs = Ok pts -> Forall (is_vertex hs) pts /\ (length pts < 3 * length hs)%nat.
+Proof. exact @intersect_halfplanes_sound. Qed.
+
+(** every 3-D vertex of the contact polygon is the lift of such an arrangement vertex of the
+    valid rows of X1 ++ X2 (ordering and de-duplication only select among them) *)
+Theorem C15_polygon_vertices_from_arrangement : forall (F : Type) (O : Ops F) (X1 X2 : M4) (n : V3 F) (d : F)
+    (perm : list nat) (poly : list (V3 F)),
+  compute_contact_polygon X1 X2 n d perm = Ok poly ->
+  let pp := vmap (fun c => (c * d)%o) n in
+  let '(x, y) := plane_basis_from_normal n in
+  let hs := valid_rows x y pp (m4rows X1 ++ m4rows X2) in
+  forall v, In v poly -> exists q, is_vertex hs q /\ v = project_point x y pp q.
+Proof. exact @polygon_vertices_from_arrangement. Qed.
+
+(** the hypotheses are satisfiable: a binary64 run of the model that returns a triangle; the
+    eighth face is parallel to the plane and is dropped by the compaction *)
+Section FloatExample.
+  Local Open Scope float_scope.
+  Definition eX1 : @M4 float := (mkV4 1 0 0 0, mkV4 0 1 0 0, mkV4 (-1) (-1) 0 1, mkV4 0 0 1 0).
+  Definition eX2 : @M4 float := (mkV4 1 0 0 1, mkV4 0 1 0 1, mkV4 (-1) (-1) 0 3, mkV4 0 0 (-1) 5).
+  Example C15_model_nonvacuous :
+    (exists rows, make_halfplanes (m4rows eX1 ++ m4rows eX2) (V 0 0 0.25) (V (-1) 0 0) (V 0 (-1) 0) = Ok rows /\ length rows = 6%nat) /\
+    (exists poly, compute_contact_polygon eX1 eX2 (V 0 0 1) 0.25 [0; 1; 2]%nat = Ok poly /\ length poly = 3%nat).
+  Proof. split; eexists; split; vm_compute; reflexivity. Qed.
+End FloatExample.
+
+(** ** 3. The model over the reals. *)
+(** the reported plane has a unit normal and is exactly the set of points where the two scaled
+    linear pressure fields coincide *)
+Theorem C15_contact_plane_unit : forall (X1 X2 : @M4 R) (e1 e2 : V4 R) (E1 E2 : R) (pl : V4 R),
+  contact_plane X1 X2 e1 e2 E1 E2 = (pl, false) -> dot (xyz pl) (xyz pl) = 1%R.
+Proof. exact contact_plane_unit. Qed.
+Theorem C15_contact_plane_equal_pressure : forall (X1 X2 : @M4 R) (e1 e2 : V4 R) (E1 E2 : R) (pl : V4 R),
+  contact_plane X1 X2 e1 e2 E1 E2 = (pl, false) ->
+  forall x, dot (xyz pl) x = c3 pl <-> pressure X1 e1 E1 x = pressure X2 e2 E2 x.
+Proof. exact contact_plane_equal_pressure. Qed.
+Theorem C15_contact_plane_same_iff : forall (X1 X2 : @M4 R) (e1 e2 : V4 R) (E1 E2 : R),
+  snd (contact_plane X1 X2 e1 e2 E1 E2) = true <->
+  xyz (vecmat4 (v4scale e1 E1) X1) = xyz (vecmat4 (v4scale e2 E2) X2).
+Proof. exact contact_plane_same_iff. Qed.
+
+Definition rX1 : @M4 R := (mkV4 0 0 1 0, mkV4 0 0 0 0, mkV4 0 0 0 0, mkV4 0 0 0 0)%R.
+Definition rX2 : @M4 R := (mkV4 0 0 (-1) 1, mkV4 0 0 0 0, mkV4 0 0 0 0, mkV4 0 0 0 0)%R.
+Example C15_contact_plane_nonvacuous :
+  exists pl, contact_plane rX1 rX2 (mkV4 1 0 0 0)%R (mkV4 1 0 0 0)%R 1%R 1%R = (pl, false).
+Proof.
+  destruct (contact_plane rX1 rX2 (mkV4 1 0 0 0)%R (mkV4 1 0 0 0)%R 1%R 1%R) as [pl b] eqn:E.
+  exists pl. f_equal. destruct b; [|reflexivity]. exfalso.
+  assert (H : snd (contact_plane rX1 rX2 (mkV4 1 0 0 0)%R (mkV4 1 0 0 0)%R 1%R 1%R) = true) by (rewrite E; reflexivity).
+  apply contact_plane_same_iff in H. unfold rX1, rX2, vecmat4, v4scale, xyz in H.
+  cbn [c0 c1 c2 c3 add mul ROps] in H. injection H; intros; lra.
+Qed.
+
+(** the halfplane test at a 2-D point IS the barycentric coordinate of the lifted point *)
+Theorem C15_halfplane_is_face : forall (x y pp : V3 R) (Xi : V4 R) (h : HP R) (q : V2 R),
+  hp_row x y pp Xi = Some h -> cross2d (hdir h) (v2sub q (hp h)) = bary_row Xi (project_point x y pp q).
+Proof. exact halfplane_is_face. Qed.
+
+(** Partial (w.r.t. "inside both tetrahedra"): every vertex of the polygon lies on the contact
+    plane EXACTLY and has barycentric coordinate >= -EPSILON w.r.t. every face of both
+    tetrahedra whose halfplane row exists.  Missing: faces (nearly) parallel to the plane have
+    no row and are not constrained by the halfplane layer (exactly parallel ones are handled by
+    the pre-check, C15_one_sided_rejects); X1, X2 are the matrices handed in, nothing is assumed
+    about how they were computed (pinv). *)
+Theorem C15_polygon_vertices_on_plane_in_faces_partial :
+  forall (X1 X2 : @M4 R) (n : V3 R) (d : R) (perm : list nat) (poly : list (V3 R)),
+  dot n n = 1%R -> compute_contact_polygon X1 X2 n d perm = Ok poly ->
+  forall v, In v poly ->
+    dot n v = d /\
+    let pp := vmap (fun c => (c * d)%o) n in
+    let '(x, y) := plane_basis_from_normal n in
+    forall Xi h, In Xi (m4rows X1 ++ m4rows X2) -> hp_row x y pp Xi = Some h -> (- EPSILON <= bary_row Xi v)%R.
+Proof. exact polygon_vertices_on_plane_in_faces. Qed.
+
+(** what a reported intersection means, and when none is reported *)
+Theorem C15_intersection_true_vertices :
+  forall (t1 t2 : @tetra R) (e1 e2 : V4 R) (X1 X2 : @M4 R) (E1 E2 : R) (perm : list nat) (pl : V4 R) (poly : list (V3 R)),
+  snd (contact_plane X1 X2 e1 e2 E1 E2) = false ->
+  intersect_tetrahedron_pair t1 e1 X1 t2 e2 X2 E1 E2 perm = Ok (true, pl, poly) ->
+  dot (xyz pl) (xyz pl) = 1%R /\ (3 <= length poly)%nat /\
+  check_tetrahedra_intersect_contact_plane t1 t2 (xyz pl) (c3 pl) PRECHECK_TOL = true /\
+  forall v, In v poly ->
+    dot (xyz pl) v = c3 pl /\
+    let pp := vmap (fun c => (c * c3 pl)%o) (xyz pl) in
+    let '(x, y) := plane_basis_from_normal (xyz pl) in
+    forall Xi h, In Xi (m4rows X1 ++ m4rows X2) -> hp_row x y pp Xi = Some h -> (- EPSILON <= bary_row Xi v)%R.
+Proof. exact intersection_true_vertices. Qed.
+Theorem C15_one_sided_rejects :
+  forall (t1 t2 : @tetra R) (e1 e2 : V4 R) (X1 X2 : @M4 R) (E1 E2 : R) (perm : list nat) (pl : V4 R),
+  contact_plane X1 X2 e1 e2 E1 E2 = (pl, false) ->
+  (let '(p0, p1, p2, p3) := plane_distances t1 (xyz pl) (c3 pl) in
+   (0 <= p0 /\ 0 <= p1 /\ 0 <= p2 /\ 0 <= p3) \/ (p0 <= 0 /\ p1 <= 0 /\ p2 <= 0 /\ p3 <= 0))%R ->
+  intersect_tetrahedron_pair t1 e1 X1 t2 e2 X2 E1 E2 perm = Ok (false, pl, []).
+Proof. exact one_sided_rejects. Qed.
+Theorem C15_non_overlapping_false_partial :
+  forall (t1 t2 : @tetra R) (e1 e2 : V4 R) (X1 X2 : @M4 R) (E1 E2 : R) (perm : list nat) (pl : V4 R),
+  contact_plane X1 X2 e1 e2 E1 E2 = (pl, false) ->
+  (let pp := vmap (fun c => (c * c3 pl)%o) (xyz pl) in
+   let '(x, y) := plane_basis_from_normal (xyz pl) in
+   forall v, dot (xyz pl) v = c3 pl ->
+     exists Xi h, In Xi (m4rows X1 ++ m4rows X2) /\ hp_row x y pp Xi = Some h /\ (bary_row Xi v < - EPSILON)%R) ->
+  forall r, intersect_tetrahedron_pair t1 e1 X1 t2 e2 X2 E1 E2 perm = Ok r -> fst (fst r) = false.
+Proof. exact non_overlapping_false_partial. Qed.
+
+(** force parallel to the normal; pressure >= 0 when the polygon lies in tetrahedron 1 *)
+Theorem C15_force_parallel_normal : forall (t : @tetra R) (e plane : V4 R) (poly : list (V3 R)) (E : R),
+  let '(_, f, _) := compute_contact_force t e plane poly E in cross f (xyz plane) = vzero.
+Proof. exact force_parallel_normal. Qed.
+Theorem C15_pressure_nonneg : forall (t : @tetra R) (e plane : V4 R) (poly : list (V3 R)) (E : R),
+  nondegenerate t -> nonneg4 e -> (0 <= E)%R -> Forall (inside t) poly ->
+  let '(_, f, area) := compute_contact_force t e plane poly E in
+  (0 <= dot f (xyz plane) /\ 0 <= area)%R.
+Proof. exact pressure_nonneg. Qed.
+
+Local Open Scope R_scope.
+Definition rT : @tetra R := (V 0 0 0, V 1 0 0, V 0 1 0, V 0 0 1).
+Example C15_pressure_nonneg_nonvacuous :
+  nondegenerate rT /\ nonneg4 (mkV4 0 0 0 1) /\
+  Forall (inside rT) [V (1/8) (1/8) (1/4); V (1/2) (1/8) (1/4); V (1/8) (1/2) (1/4)].
+Proof.
+  unfold nondegenerate, nonneg4, inside, rT, bary_coords, det3, dot, cross, vsub.
+  cbn [c0 c1 c2 c3 vx vy vz add sub mul div one ROps].
+  split; [lra|]. split; [repeat split; lra|].
+  repeat (apply Forall_cons; [cbn [vx vy vz]; repeat split; lra|]). apply Forall_nil.
+Qed.
+
 Print Assumptions C15_poly_cert_sound.
 Print Assumptions C15_sep_cert_sound.
 Print Assumptions C15_poly_cert_nonvacuous.
 Print Assumptions C15_sep_cert_nonvacuous.
+Print Assumptions C15_halfplanes_compact.
+Print Assumptions C15_intersect_halfplanes_sound.
+Print Assumptions C15_polygon_vertices_from_arrangement.
+Print Assumptions C15_model_nonvacuous.
+Print Assumptions C15_contact_plane_unit.
+Print Assumptions C15_contact_plane_equal_pressure.
+Print Assumptions C15_contact_plane_same_iff.
+Print Assumptions C15_contact_plane_nonvacuous.
+Print Assumptions C15_halfplane_is_face.
+Print Assumptions C15_polygon_vertices_on_plane_in_faces_partial.
+Print Assumptions C15_intersection_true_vertices.
+Print Assumptions C15_one_sided_rejects.
+Print Assumptions C15_non_overlapping_false_partial.
+Print Assumptions C15_force_parallel_normal.
+Print Assumptions C15_pressure_nonneg.
+Print Assumptions C15_pressure_nonneg_nonvacuous.
